@@ -142,6 +142,28 @@ PROPS = {
         classify=lambda row: "copy-variants",
         nontrivial=lambda row: True,
     ),
+    "C16": dict(
+        family="lim", xcheck=150, realtime=True,
+        proof_files=["Proofs/C16Proofs.v", "Proofs/AssocFacts.v"],
+        trusted_base=TB_COMMON + ["caching/verif_export.go VerifLimiter: runs the real readFiles, readStorableAccessTimes, purgeableItemNames, flushStorableAccessTimes and storage fields; the few lines of runSizeLimiter's op switch, start-up merge and post-purge bookkeeping are repeated in the hook because the loop itself is driven by wall-clock time (the real-time run below exercises the loop itself)",
+                                  "the limiter's 5 s period and Go's channel delivery are modelled as explicit tick operations",
+                                  "Go's map iteration order among entries without access time is not modelled: generated histories keep at most one such entry at a time"],
+        assumptions=ASSUME_COMMON + ["theorems speak of histories whose entry sizes are whole KiB below 4 GiB and in which the directory is changed only through the cache (outside finding F14)",
+                                     "'within a bounded time as long as the cache keeps being used' is read as: each pass of the limiter (one per 5 s while operations arrive) reclaims the excess, at most maxPurgeBytes per pass"],
+        rule="histories of 4-17 operations over limits 4 KiB-200 KB: fills (fresh names, names used before: refused while on disk, refilled after a purge), hits, atimes flushes, limiter passes, restarts after a flush (with and without every entry hit before), deletions behind the limiter's back and revalidations that change an entry's size; sizes whole KiB in 60% of the histories, else from {0,1,500,1000,1023,1024,1025,1536,4000,10000,65535,1 MiB}; at most one pre-existing file; after every operation the estimate, both maps, the purged names and the directory listing are compared; non-trivial = at least one pass of the limiter over the limit; distinct = distinct case encodings",
+        classify=lambda row: "lim-history",
+    ),
+    "C17": dict(
+        family="lim", xcheck=150, realtime=True,
+        proof_files=["Proofs/C17Proofs.v", "Proofs/C16Proofs.v", "Proofs/AssocFacts.v", "Spec/SpecC17.v"],
+        trusted_base=TB_COMMON + ["caching/verif_export.go VerifLimiter (see C16): access times are given to the real bookkeeping as explicit clock readings",
+                                  "sort.Slice is not stable: ties in access time are ordered by name in the model and generated clock readings are distinct",
+                                  "Go's map iteration order among entries without access time is not modelled: generated histories keep at most one such entry at a time"],
+        assumptions=ASSUME_COMMON + ["clock readings are below 2^32 (the code keeps uint32 seconds: year 2106)", "accesses not yet flushed at a restart are lost (the property quantifies over restarts after a flush)",
+                                     "'remains' is read as: still known to the limiter after the pass; with no deletions behind its back those are the entries on disk (C16_books_exact)"],
+        rule="the C16 histories (fills and hits in any order at distinct increasing clock readings, flushes, restarts after a flush, space pressure from later fills) judged by a last-use monitor kept by the harness side alone: at every pass, no entry removed may have a later last access than one that stays, and none with a known last access may go while one with an unknown one stays; non-trivial = at least one entry purged; distinct = distinct case encodings",
+        classify=lambda row: "lim-history",
+    ),
     "C04": dict(
         family="route",
         proof_files=["Proofs/C04Proofs.v", "Proofs/HeaderFacts.v", "Spec/SpecC04.v", "Proofs/RouteProofs.v", "Proofs/ForwardProofs.v"],
